@@ -39,7 +39,7 @@ def make_judges(ctx):
         if ev.op not in STORE_OPS:
             return
         try:
-            si = decode_store(ev, allow_raw=True)
+            si = decode_store(ev, allow_raw=True, allow_fxp=True)      # (a fixed-point source: a stored result moved into a wrap register)
         except Unsupported as e:
             ctx.skip('store:' + str(e))
             return
@@ -66,7 +66,7 @@ def make_judges(ctx):
             if any(x.denominator != 1 for x in xs) or any(v.denominator != 1 for v in si.values):
                 ctx.skip('store:wide word with a non-integer input')
                 return
-            if not _pyint_carrier(si.carrier):
+            if not si.fxp_source and not _pyint_carrier(si.carrier):
                 ctx.skip('store:wide word with a non Python-integer carrier')
                 return
         else:
@@ -106,7 +106,9 @@ def make_judges(ctx):
             seen[r] = k
             if len(classes) < 6:
                 classes.add(('hi' if ru > hi else 'lo' if ru < lo else 'in', wraps_class(ru, lo, hi, m)))
-        fmtkey = ('s' if post.signed else 'u', G.word_class(n), G.frac_class(n, post.n_frac), post.rounding, 'raw' if si.raw else 'value')
+        fmtkey = ('s' if post.signed else 'u', G.word_class(n), G.frac_class(n, post.n_frac), post.rounding, 'raw' if si.raw else ('fxp' if si.fxp_source else 'value'))
+        if si.fxp_source and wide and any(wc > 0 for s_, wc in classes):
+            ctx.floor_hit(('wide-from-fixed-point', len(si.shape) > 0))
         first = True
         for side, wc in sorted(classes):
             key = fmtkey + (side, wc, 'store')
@@ -227,8 +229,13 @@ def make_judges(ctx):
         d.update(ev.kwargs)
         if d.get('restore_val', True) is not True:
             return
+        wide_exact = False
         for sn in (pre, post):
             if not (1 <= sn.n_word <= 52 and -8 <= sn.n_frac <= sn.n_word + 8):
+                # registers of 64 bits and more: judged when the re-stored values are whole codes of the new format (no rounding involved)
+                if sn.n_word <= 256 and 64 <= post.n_word <= 256 and all((k0 * R.lsb(pre.n_frac) * F(2) ** post.n_frac).denominator == 1 for k0 in pre.codes):
+                    wide_exact = True
+                    continue
                 ctx.skip('resize:outside the core domain')
                 return
         if ev.exc is not None:
@@ -249,6 +256,8 @@ def make_judges(ctx):
         ctx.judged(('resize', pre.signed, post.signed, (post.n_word > pre.n_word) - (post.n_word < pre.n_word), wrapped), wrapped, None, elements=len(pre.codes))
         if wrapped:
             ctx.floor_hit(('resize-wrap',))
+            if wide_exact:
+                ctx.floor_hit(('resize-wrap-wide',))
     return [store_judge, register_judge, resize_judge]
 
 
@@ -295,7 +304,8 @@ def _pyint_carrier(c):
 
 def floors(tier):
     return [('wide', n) for n in WIDE] + [('core', s, r) for s in 'su' for r in G.ROUNDINGS] + \
-           [('register', op, way) for op in ('add', 'sub', 'mul') for way in ('out', 'same')] + [('resize-wrap',), ('register-rounded',)]
+           [('register', op, way) for op in ('add', 'sub', 'mul') for way in ('out', 'same')] + [('resize-wrap',), ('register-rounded',)] + \
+           [('wide-from-fixed-point', True), ('wide-from-fixed-point', False), ('resize-wrap-wide',), ('register-wide-upshift',), ('register-uu-coarser-subtrahend',)]
 
 
 # ------------------------------------------------------------------------------------------ workload
@@ -478,6 +488,67 @@ def run_case(case, ctx):
                 for fn in (fm.sub, fm.add):
                     _try(lambda: fn(ua, ub, out=Fxp(None, sreg_, n, rng.choice([0, 4]), overflow='wrap')))
                     _try(lambda: fn(Fxp([3, 200], False, 8, 0), Fxp([5, 100], False, 8, 0), out_like=Fxp(None, sreg_, n, 0, overflow='wrap')))
+        # two unsigned operands of different fraction lengths, the coarser one subtracted: value(x) < value(y) although code(x) >= code(y); into wrap
+        # registers with fewer fraction bits than x (rounding of a NEGATIVE difference), short and 64 bits wide
+        if mixed_digit != 1:
+            wx, fx_ = rng.choice([(12, 4), (16, 8), (10, 5), (24, 12), (31, 9)])
+            wy = rng.choice([6, 8, 10])
+            fy_ = rng.choice([0, 0, 1, 2])
+            cy = rng.randint(1, (1 << wy) - 1)
+            lo_c = cy + 1
+            hi_c = min((1 << wx) - 1, (cy << (fx_ - fy_)) - 1)
+            if lo_c <= hi_c:
+                cx = rng.choice([hi_c, lo_c, rng.randint(lo_c, hi_c), rng.randint(lo_c, hi_c) | 1])
+                ux = Fxp(cx, False, wx, fx_, raw=True)
+                uy = Fxp(cy, False, wy, fy_, raw=True)
+                for nreg_, freg_ in ((8, 0), (16, max(0, fx_ - 2)), (52, fy_), (64, 0), (12, fx_ - 1)):
+                    _try(lambda: fm.sub(ux, uy, out=Fxp(None, True, nreg_, freg_, overflow='wrap', rounding=r)))
+                    _try(lambda: fm.sub(ux, uy, out_like=Fxp(None, rng.random() < 0.5, nreg_, freg_, overflow='wrap', rounding=r)))
+                _try(lambda: fm.sub(Fxp([cx, 0, cx], False, wx, fx_, raw=True), Fxp([cy, 1, 0], False, wy, fy_, raw=True), out=Fxp(None, True, 8, 0, overflow='wrap', rounding=r)))
+                ctx.floor_hit(('register-uu-coarser-subtrahend',))
+        # products / sums of short operands stored into registers of 65+ bits that have MORE fraction bits than the exact result: the raw result is shifted
+        # up past 2^63 although the operand words together stay below 64 bits
+        if wide and n > 64:
+            wa_, wb_ = rng.randint(12, 30), rng.randint(12, 30)
+            sa_ = rng.random() < 0.7
+            la_, ha_ = R.code_range(sa_, wa_)
+            lb_, hb_ = R.code_range(sa_, wb_)
+            ca_ = rng.choice([la_, ha_, rng.randint(la_, ha_) | 1, rng.randint(la_, ha_)])
+            cb_ = rng.choice([lb_, hb_, rng.randint(lb_, hb_) | 1, rng.randint(lb_, hb_)])
+            fa_, fb_ = rng.choice([0, 0, 3]), rng.choice([0, 2])
+            up_ = rng.randint(max(1, 62 - wa_ - wb_), 62)
+            pa_, pb_ = Fxp(ca_, sa_, wa_, fa_, raw=True), Fxp(cb_, sa_, wb_, fb_, raw=True)
+            for fn, nfres in ((fm.mul, fa_ + fb_), (fm.add, max(fa_, fb_)), (fm.sub, max(fa_, fb_))):
+                if nfres + up_ <= n:
+                    _try(lambda: fn(pa_, pb_, out=Fxp(None, True, n, nfres + up_, overflow='wrap')))
+                    _try(lambda: fn(pa_, pb_, out_like=Fxp(None, sa_, n, nfres + up_, overflow='wrap')))
+            pa_.config.op_out = Fxp(None, True, n, min(n, fa_ + fb_ + up_), overflow='wrap')
+            _try(lambda: pa_ * pb_)
+            ctx.floor_hit(('register-wide-upshift',))
+        # stored results (fixed-point objects, scalars and lopsided arrays) moved into wrap registers of 64+ bits with more fraction bits, by every route
+        if wide:
+            ws_ = rng.randint(16, 44)
+            ls_, hs_ = R.code_range(True, ws_)
+            fs_ = rng.choice([0, 0, 4])
+            arrs = [[ls_, 1, 0, rng.randint(1, 7)], [hs_, -1, ls_ + 1, 3], [rng.randint(ls_, hs_) for _ in range(3)]]
+            srcs = [Fxp(rng.choice([ls_, hs_, rng.randint(ls_, hs_)]), True, ws_, fs_, raw=True)] + [Fxp(np.array(a_), True, ws_, fs_, raw=True) for a_ in arrs]
+            for up_ in (rng.randint(max(1, 62 - ws_), 70 - ws_ + 10), rng.randint(1, 20)):
+                nfreg = fs_ + up_
+                if nfreg > n:
+                    continue
+                for sreg_ in (True, False):
+                    for src in srcs:
+                        shp_ = np.shape(src.val)
+                        _try(lambda: Fxp(src, like=Fxp(None, sreg_, n, nfreg, overflow='wrap')))
+                        _try(lambda: Fxp(src, sreg_, n, nfreg, overflow='wrap'))
+                        _try(lambda: Fxp(np.zeros(shp_) if shp_ else None, sreg_, n, nfreg, overflow='wrap').set_val(src))
+                        _try(lambda: Fxp(np.zeros(shp_) if shp_ else None, sreg_, n, nfreg, overflow='wrap')(src))
+                        _try(lambda: Fxp(np.zeros(shp_) if shp_ else None, sreg_, n, nfreg, overflow='wrap').equal(src))
+                        _try(lambda: src.like(Fxp(None, sreg_, n, nfreg, overflow='wrap')))
+                        cp = _try(lambda: src.deepcopy())
+                        if cp is not None:
+                            cp.config.overflow = 'wrap'
+                            _try(lambda: cp.resize(sreg_, n, nfreg))
         # accumulate in place
         acc = mk(a, op_sizing='same')
         for _ in range(3):
